@@ -48,6 +48,12 @@ CHECKS = {
    text="Ordering and suspension facet: generated import DAGs (diamonds, up to 6 packages, up to 3 files each) with package-level variables depending on each other across files directly and through functions, several init functions per file, initialisers and init functions containing yield atoms, goroutines started from initialisers that hand results back over channels; direct and resumable builds by the tree's compiler run under seeded suspension tapes. The trace must be identical for every tape, every package's initialisation must be one contiguous block after the blocks of all packages it imports with main last, the order in which a package's files are presented must be a function of their names alone (cross-checked over all programs of the run), and each package's block must equal the natively built program's once the native copy's files are renamed into the observed order. Build-time rejection of invalid go:linkname uses is a compile-time fact and is not decided.",
    note="Trusted: host Go toolchain as reference for variable and init order inside a package, generator rules, simulator. The relative order of independent packages is not constrained (the property demands only 'after its imports').",
    technique="deterministic simulation (seeded suspensions inside initialisers and init functions) with the native toolchain as reference"),
+ "C20": dict(
+   engine="govl",
+   category="fault_enumeration", design_ref="DESIGN.md §4 C20",
+   text="The real build/cache code (Store, Load, serialize, deserialize, key derivation, real gzip and gob) is rebuilt with its os import bound to a simulated file system, so every file-system call is a crash point, a fault point and a scheduling point. Enumerated: a crash before every file-system call of a Store under the kill model and several seeded power-loss resolutions, with and without a previous complete entry; truncation at every length and bit flips at every byte of stored entries; an I/O error, short write or ENOSPC at every call of Store and Load; every ordered pair of configurations (one field at a time, all at once, adversarial quoting) x import paths; a staleness grid; the package under test. Explored: rapid-generated sequences of Store/Load/Clear/damage/crash-restart/I/O-fault/concurrent-process operations (processes interleaved at file-system-call granularity by the seeded scheduler), shrunk by rapid and replayed from its fail file. Oracle: a reference map from (configuration fields, import path) to stored entries; a hit must return exactly what one Store under that key provided and not be stale; Load never panics; fault-free sequences must hit.",
+   note="Trusted: the simulated file system's fault models (kill: completed calls persist; power loss: metadata ordered, un-synced data torn/zero-filled), compress/gzip and encoding/gob. The cached value is a 4-field gob blob in these tests; the round trip of real sources.Sources and the end-to-end cold/warm build equality are separate tests (see DESIGN).",
+   technique="deterministic simulation with fault injection: simulated disk, crash/fault enumeration at every file-system call plus rapid state-machine exploration against a reference model"),
 }
 
 def main():
@@ -74,6 +80,8 @@ def main():
                "baseline_off_cmd": "cd /repo && go test -vet=off -count=1 -timeout 25m ./...",
                "source_commits": [], "add_only": True},
      "engines": [
+       {"name": "govl", "path": "/verif/go/internal/govl", "serves_properties": sorted(p for p in CHECKS if CHECKS[p].get("engine")=="govl"),
+        "kind_free_text": "harness compiled into the gopherjs module through a go build overlay generated from /repo's working tree (simulated file system, recorded writer streams, seeded map-order seam); rapid for seeded operation sequences with shrinking"},
        {"name": "simnode", "path": "/verif/sim/simnode.js", "serves_properties": sorted(p for p in CHECKS if CHECKS[p].get("engine","simnode")=="simnode"),
         "kind_free_text": "deterministic simulation of the Node event loop (timers, clocks, Math.random, process.exit, injected callbacks) around GopherJS-compiled programs; Go driver under /verif/go"},
      ],
